@@ -46,8 +46,8 @@ def create_lstm_model(vocab_size: int = 86,
   """
   # TODO(jaero): Replace these with direct references from dataset.
   pad = 0
-  bos = vocab_size + 1
-  eos = vocab_size + 2
+  bos = 1
+  eos = 2
   oov = vocab_size + 3
   full_vocab_size = vocab_size + 4
   # We do not guess EOS, and if we guess OOV, it's treated as a mistake.
